@@ -200,7 +200,7 @@ fn seed_for(d: usize, rng: &mut Rng) -> Vec<u8> {
             fp.join(":").into_bytes()
         }
         // (also names spelled with capitals next to characters whose lower-case form has another UTF-8 length)
-        26 => rng.pick(&["www.example.co.uk", "a.b.c.kobe.jp", "xn--55qx5d.cn", "example.com", "foo.ck", "Www.Example.CO.UK", "A\u{23a}", "Example.\u{1e9e}", "Www.Example.\u{212a}", "Shop.\u{2126}", "\u{130}stanbul.Example.TR", "M\u{fc}nchen.DE"]).as_bytes().to_vec(),
+        26 => rng.pick(&["www.example.co.uk", "a.b.c.kobe.jp", "xn--55qx5d.cn", "example.com", "foo.ck", "Www.Example.CO.UK", "A\u{23a}", "Example.\u{1e9e}", "Www.Example.\u{212a}", "Shop.\u{2126}", "\u{130}stanbul.Example.TR", "M\u{fc}nchen.DE", "example\u{3002}com", "www\u{ff0e}example.co.uk", "a\u{ff61}kobe.jp"]).as_bytes().to_vec(),
         28 => {
             // AES-CBC output as a platform sends it: any multiple of 16, mostly the two specified sizes
             let l = *rng.pick(&[32usize, 64, 32, 64, 0, 16, 48, 80, 96, 128, 160, 256, 1024, 4096]);
